@@ -193,6 +193,13 @@ impl<'a, 'b, Version, Purpose> GenericParser<'a, 'b, Version, Purpose> {
       }
     }
 
+    //validators that were registered without an expected claim run as well
+    for (key, validator) in &self.claim_validators {
+      if !self.claims.contains_key(key) {
+        validator(key, &json[key])?;
+      }
+    }
+
     Ok(json)
   }
 }
